@@ -262,6 +262,17 @@ def demo_F21_nfa_simulate_word_epsilon_cycle():
     return (run is not None and run[0] == ('q0', 'a') and run[-1] == ('q2', ''), str(run))
 
 
+def demo_F22_dfa2regexp_digit_symbols():
+    from gambatools.dfa import DFA
+    from gambatools.dfa_algorithms import print_dfa
+    from gambatools.regexp_algorithms import dfa_to_regexp
+    from gambatools.regexp import print_regexp_simple
+    from gambatools.notebook import check_dfa2regexp
+    D = DFA({'p', 'q'}, {'0', '1'}, {('p', '0'): 'p', ('p', '1'): 'q', ('q', '0'): 'q', ('q', '1'): 'q'}, 'p', {'q'})
+    out = _stdout(check_dfa2regexp, print_dfa(D), print_regexp_simple(dfa_to_regexp(D)))
+    return (out == 'OK', out)
+
+
 def demo_F17_state_named_like_keyword():
     from gambatools.dfa import DFA
     from gambatools.dfa_algorithms import print_dfa, parse_dfa
